@@ -1,6 +1,6 @@
 #!/bin/bash
 # usage: tools/install_round2.sh C02 C06 ...  — confirm and install the round-2 sub-agent mutants found under /tmp/mut2/<Cxx>/m3, m4
-for p in "$@"; do for m in m3 m4; do
+for p in "$@"; do for m in ${MUTS:-m3 m4}; do
   d=${MUTBASE:-/tmp/mut2}/$p/$m
   [ -f $d/patch.diff ] || { echo "$p $m: missing"; continue; }
   [ -d /verif/seeded/$p-$m ] && { echo "$p-$m already installed"; continue; }
